@@ -51,6 +51,7 @@ def gen_ballot(rng, n, pool):
         b["w"], b["wpy"] = None, f"F{f}"
     else:
         b["w"], b["wpy"] = None, rng.choice([0.1, 0.25, 1.5, 2.7, 1 / 3, 3.000001])
+    b["sperm"] = rng.randint(0, 10 ** 6)     # insertion order of the scores dict
     b["id"] = rng.choice([None, None, "x1", "x2"])
     b["vs"] = rng.choice([None, None, ["v1"], ["v1", "v2"]])
     return b
@@ -106,7 +107,10 @@ def mk(vk, names, b, weight=None):
     if b["r"]:
         kw["ranking"] = tuple(frozenset(names[c] for c in s) for s in b["r"])
     if b["s"]:
-        kw["scores"] = {names[c]: Fraction(v) for c, v in b["s"]}
+        items = list(b["s"])
+        import random as _r
+        _r.Random(b.get("sperm", 0)).shuffle(items)     # same content, different dict insertion order
+        kw["scores"] = {names[c]: Fraction(v) for c, v in items}
     kw["weight"] = py_weight(b["wpy"]) if weight is None else weight
     if b.get("id"):
         kw["id"] = b["id"]
